@@ -6,10 +6,15 @@ import (
 	"fmt"
 	"os"
 
+	"github.com/consensys/gnark/logger"
+
 	"verifharness/common"
+	"verifharness/extract"
+	"verifharness/generic"
 )
 
 func main() {
+	logger.Disable()
 	if len(os.Args) < 2 {
 		fmt.Fprintln(os.Stderr, "usage: verifh <cmd> [--curve c] [--in f] --out f")
 		os.Exit(2)
@@ -22,7 +27,7 @@ func main() {
 		os.Exit(2)
 	}
 	defer out.Close()
-	if f, ok := generic[cmd]; ok {
+	if f, ok := genericCmds[cmd]; ok {
 		if err := f(args, out); err != nil {
 			out.Close()
 			fmt.Fprintln(os.Stderr, "error:", err)
@@ -48,4 +53,7 @@ func main() {
 	}
 }
 
-var generic = map[string]func(common.Args, *common.Out) error{}
+var genericCmds = map[string]func(common.Args, *common.Out) error{
+	"compiledet": generic.CompileDet,
+	"maprange":   extract.MapRange,
+}
